@@ -216,7 +216,7 @@ static void run_candidate(int idx, struct ev *e, int flags)
         char fdname[16];
         dup2(out_m, 1);
         dup2(err_m, 2);
-        alarm((flags & F_LSAN) ? 20 : 3);
+        alarm((flags & F_LSAN) ? 30 : 10);
         dis = apply_event(e, &rc);
         fflush(stdout);
         split1 = lseek(1, 0, SEEK_CUR);
